@@ -3,7 +3,7 @@ Factory repair_obls(prefix) for C19."""
 from vp import Obl
 
 KIT = ["vp_nondet.c", "vp_mem.c", "vp_alloc_c17.c", "vp_d9_names.c"]
-REAL = ["util/buffer.c", "util/slice.c", "dbformat.c", "util/array.c"]
+REAL = ["util/buffer.c", "util/slice.c", "dbformat.c", "util/array.c", "util/options.c", "util/comparator.c"]
 FLAGS = ["--slice-formula", "--max-field-sensitivity-array-size", "2000"]
 INC = ["repair.c", "util/vector.c"]
 
